@@ -18,5 +18,7 @@ CONSTANTS
   SliceRes = 0
   Hash <- IdHash
   MaxDecl = 2
+  MaxSubmits = 0
+  StoreRule = "firstValid"
 INVARIANTS NeverStale
 CHECK_DEADLOCK FALSE
